@@ -174,6 +174,8 @@ def gen(rng, focus, k=None, maxops=40):
             s, t = pt
             tp = g.streams[s]["topics"][t]
             cnt = rng.choice([1, 1, 2])
+            if kind == "dp" and rng.random() < 0.15:
+                cnt = tp["parts"] + rng.choice([1, 3])      # more than there are: all of them go
             if kind == "cp":
                 g.emit(f"create-parts 0 #{s} {g.ident(t, tp['name'])} {cnt}")
                 tp["parts"] += cnt
